@@ -157,7 +157,7 @@ def reference(ctx):
     S_ = "MD3.set_reference"
     tr = ctx.trace("MD3", "set_reference", nonnull=("X",))
     cs = q.find_calls(tr, "MD3.calculate_distribution_statistics")
-    ctx.ob("ROLE", S_, "reference statistics computed", len(cs) == 1, "")
+    ctx.anchor(S_, "reference statistics computed", len(cs) == 1, "")
     fin = tr.final.attrs
     rdv = fin.get("reference_distribution")
     if rdv is not None:
